@@ -78,7 +78,7 @@ class LighthouseSystemAligner:
                                               x_scale='jac',
                                               ftol=1e-8,
                                               method='trf',
-                                              max_nfev=10,
+                                              max_nfev=50,
                                               args=args)
         return cls._Pose_from_params(result.x)
 
